@@ -8,6 +8,7 @@ import NrDaemon.Driver.Lasp
 import NrDaemon.Driver.Proc
 import NrDaemon.Driver.Limiter
 import NrDaemon.Driver.Json
+import NrDaemon.Driver.Config
 /-!
   Op-line driver (core Lean only; built as a `lean_exe`).
 
@@ -36,6 +37,8 @@ def dispatch (st : DState) (line : String) (impl : Option String) : DState × St
   | some "proc" => let (c, o) := procStep st.proc t impl; ({ st with proc := c }, o)
   | some "limiter" => let (c, o) := limiterStep st.lim t impl; ({ st with lim := c }, o)
   | some "json" => (st, jsonStep t impl)
+  | some "cfg" => (st, cfgStep t impl)
+  | some "flags" => (st, flagsStep t impl)
   | some "reset" => ({}, { model := "ok" })
   | _ => (st, { model := "bad-op" })
 
